@@ -91,3 +91,7 @@ Definition S_best_pivots_dir_legal : Prop :=
   forall g comp k use_tot tot x, length comp = length g ->
   (forall c, c < k -> exists u, u < length g /\ nth u comp 0 = c) ->
   legal_pivots g comp k (best_pivots_dir use_tot (length g) comp k tot x).
+
+(** the boolean test the driver applies to OBSERVED pivots decides [legal_pivots] *)
+Definition S_legal_pivotsb_spec : Prop :=
+  forall g comp k piv, legal_pivotsb (length g) comp k piv = true <-> legal_pivots g comp k piv.
